@@ -298,6 +298,15 @@ func GovProfile(seed int64, out *Recorder, nOps int) *Chain {
 				a, _ := sdk.AccAddressFromBech32(cs[rng.Intn(len(cs))].Address)
 				signer = c.idxOf(a, who)
 			}
+			// the issuer of a certificate revokes it itself — also when it has left the council since (own random stream)
+			if r7 := newRng(seed*139 + int64(i)*13 + 7); len(certs) > 0 && r7.Intn(4) == 0 {
+				ct := certs[r7.Intn(len(certs))]
+				if ia, err := sdk.AccAddressFromBech32(ct.Certifier); err == nil {
+					if ii := c.idxOf(ia, -1); ii >= 0 {
+						id, signer = ct.CertificateId, ii
+					}
+				}
+			}
 			c.Do(signer, []D{{"t": "cert.revoke", "id": id, "revoker": Hex(c.Accts[signer].Addr)}},
 				certtypes.NewMsgRevokeCertificate(c.Accts[signer].Addr, id, "why"))
 		case r < 95:
